@@ -6,6 +6,7 @@ import (
 	"encoding/json"
 	"fmt"
 	"io"
+	"math/rand"
 	"os"
 	"regexp"
 	"servitor/config"
@@ -61,7 +62,11 @@ func TestMain(m *testing.M) {
 			f.Close()
 		}
 		if os.Getenv("VERIF_HOOK_FAIL") != "" {
-			os.Stdout.WriteString("hook failed on purpose\n")
+			if text := os.Getenv("VERIF_HOOK_OUTPUT"); text != "" {
+				os.Stdout.WriteString(text)
+			} else {
+				os.Stdout.WriteString("hook failed on purpose\n")
+			}
 			os.Exit(7)
 		}
 		os.Exit(0)
@@ -661,6 +666,9 @@ func TestVerifKeys(t *testing.T) {
 		v.flushFrames()
 		verifEmitConns(out, w, &connMark)
 	}
+	if in.Frames {
+		verifStatusLine(w, out, &sid, rng)
+	}
 	/* wild sessions: arbitrary bytes, long numbers, commands with garbage */
 	alphabet := []byte("jkghl carobp.:0123456789\r\x1b\x7fzZ/@ ~\x00\xff\x80\t")
 	for i := 0; i < in.Wild; i++ {
@@ -703,6 +711,59 @@ func TestVerifKeys(t *testing.T) {
 		verifEmitConns(out, w, &connMark)
 		out.Emit(verifkit.M{"ev": "wild", "sid": sid, "start": start, "keys": verifkit.Clip(fmt.Sprintf("%q", keys), 300), "done": done, "panic": panicked, "wedged": wedged, "what": what,
 			"frames": atomic.LoadInt64(&v.frames), "unheld": atomic.LoadInt64(&v.unheld), "overlap": atomic.LoadInt64(&v.overlap)})
+	}
+}
+
+/*
+	The status line at, just below and just above the width of the terminal: a command typed key by key
+	(with line feeds, tabs, bells and C1 controls among the keys) passes through every length, and a
+	failing hook's verbatim output is shown on terminals exactly as wide as the message.  Every frame
+	goes to the frame monitors; a draw that panics hands no frame to the terminal at all.
+*/
+func verifStatusLine(w *verifWorld, out *verifkit.Trace, sid *int, rng *rand.Rand) {
+	pattern := []byte{'a', 10, 'b', 9, 0x9b, '3', '1', 'm', 'c', 7, 'd', 0x85, ' ', 'e', 10, 10, 'f', 0x90, 'g', 12, 'h', 11}
+	for _, width := range []int{17, 24, 31} {
+		*sid++
+		v := verifNewSession(w, out, *sid, true)
+		if err := v.s.Subcommand("open", w.h.URL(w.startA)); err != nil || !v.settle(8*time.Second) {
+			continue
+		}
+		v.resize(width, 7+rng.Intn(5))
+		typed := []byte{':'}
+		for k := 0; k < 2*width; k++ {
+			typed = append(typed, pattern[(k+width)%len(pattern)])
+		}
+		panicked, what := false, ""
+		done := 0
+		for _, b := range typed {
+			panicked, what, _ = v.press(string(b), []byte{b})
+			done++
+			if panicked {
+				break
+			}
+		}
+		v.flushFrames()
+		out.Emit(verifkit.M{"ev": "status", "sid": *sid, "scenario": "command typed key by key", "w": width, "typed": done, "panic": panicked, "what": what})
+	}
+	defer os.Unsetenv("VERIF_HOOK_FAIL")
+	defer os.Unsetenv("VERIF_HOOK_OUTPUT")
+	for i, output := range []string{"\x1b[5;31mno such viewer\x1b[0m", "first line\nsecond line\n", "tab\there \x07bell \u009b7m c1", "plain failure"} {
+		message := "Failed to open link: " + output
+		long := len([]rune(message))
+		for _, width := range []int{long - 1, long, long + 1, long - 9} {
+			*sid++
+			v := verifNewSession(w, out, *sid, true)
+			os.Setenv("VERIF_HOOK_FAIL", "1")
+			os.Setenv("VERIF_HOOK_OUTPUT", output)
+			if err := v.s.Subcommand("open", w.h.URL(w.startA)); err != nil || !v.settle(8*time.Second) {
+				continue
+			}
+			v.resize(width, 6+rng.Intn(6))
+			panicked, what, wedged := v.press("p", []byte{'p'})
+			calls := v.hookCalls()
+			v.flushFrames()
+			out.Emit(verifkit.M{"ev": "status", "sid": *sid, "scenario": fmt.Sprintf("failing hook, output %d", i), "w": width, "typed": len(calls), "panic": panicked || wedged, "what": what})
+		}
 	}
 }
 
